@@ -71,7 +71,7 @@ CLAIMED["C15"] = dict(
          "proceeds only if the server selected an offered method and reported success; every non-zero reply fails the request with the "
          "documented mapping (03/04 unreachable, 06 timed out); every strict prefix of a reply is an I/O error; UDP header wrap/unwrap "
          "round-trips and never panics. Tied to socks5_client.rs / socks5_forwarder.rs by ~4k scripted dialogues per run over an "
-         "in-memory pipe (bytes sent and outcome compared), the forwarder over loopback TCP, and a real UDP association.",
+         "in-memory pipe (bytes sent and outcome compared), the forwarder over loopback TCP, and a real UDP association. The reply reader takes exactly the reply (reply_v4_consumes_exactly, reply_v6_consumes_exactly); what an established connection then delivers is compared with the bytes the scripted proxy sent behind its reply (afterDialogue).",
     note="Trusted: Lean kernel, harness/door, base64 (decoded credentials are model inputs), tokio's read_exact/duplex, the kernel's UDP "
          "connect (an IPv6 relay address fails on the IPv4-bound socket: model follows the observed behaviour).",
 )
@@ -94,7 +94,7 @@ CLAIMED["C13"] = dict(
          "verbatim (quotes, backslashes, surrounding spaces preserved); empty or non-string values are refused; the registry accepts a "
          "token iff it is base64(user:password) of a listed pair and base64 is injective, so nothing else is accepted; Settings "
          "validation refuses exactly the documented start-up situations. Tied to settings.rs / registry_based.rs / client_config.rs / "
-         "the setup wizard by ~2.5k differential cases per run through the real deserialiser, authenticator, exporter and Core::new.",
+         "the setup wizard by ~2.5k differential cases per run through the real deserialiser, authenticator, exporter and Core::new. The keys the settings deserialiser accepts for every field (names, renames, aliases) are a regenerated table: no key is accepted for two fields and every key names its field (keys_unambiguous, keys_name_their_fields); every integer and boolean key is set in a file under each spelling and the read-back settings compared.",
     note="Trusted: Lean kernel, harness/door, toml_edit (multi-line strings, its own encoder used by the wizard and the exporter - "
          "their round trips are run, not proved), certificate loading (rustls-pki-types) for the TLS-host refusals.",
 )
@@ -136,7 +136,7 @@ CLAIMED["C08"] = dict(
          "non-returning iteration awaits the transport (no_spin); the buffered head never exceeds the limit by more than one read and an "
          "incomplete head at the limit is rejected; encode_response output is parsed back line by line. Tied to http1_codec.rs by ~2.4k "
          "real sessions per run (head length and upload payload compared with the model, request fields and response checked by an "
-         "oracle, watchdog for busy loops).",
+         "oracle, watchdog for busy loops). The relaying phase has a model of its own (TT/Model/H1Relay.lean, one event per loop iteration): payload goes both ways until the first close, which ends the call at once - gracefully for the client's end of stream and the relay's orderly end, with an error when the relay side goes away without one (relaying_goes_on, relayed_until_close, session_ends_with_either_side, abort_is_not_graceful); compared with 200 (1500) scripted sessions per run.",
     note="Trusted: Lean kernel, harness/door, httparse (PrefixConsistent is a hypothesis, exercised), tokio channels/select. MAX_RAW_HEADERS_SIZE "
          "is re-extracted from the source into TT/Gen/Consts.lean on every run.",
 )
@@ -166,7 +166,7 @@ CLAIMED["C10"] = dict(
          "310/311 + host name, per outcome of the connection attempt (tables regenerated from the match arms of http_downstream.rs on "
          "every run, so a changed arm re-checks the theorems); reserved authorities are never connected to and other methods on them get "
          "502; look-alike names are ordinary hosts; CONNECT without a port is refused 502/300 with no attempt; completion within the "
-         "establishment timeout gives 200, later gives 502/302. Tied to the code by the same real-session suite as C01.",
+         "establishment timeout gives 200, later gives 502/302. Tied to the code by the same real-session suite as C01. The OS errors of the outbound connect are classified as the regenerated lists say: no route 301, timed out 302, anything else 300 (os_error_codes).",
     note="Trusted: Lean kernel, harness/door, tools/extract.py (regex translation of the two match tables), http crate authority parsing "
          "(parsed view is a model input); HTTP/3 is driven live (suite c10h3) with immediate connect outcomes only.",
 )
@@ -179,7 +179,7 @@ CLAIMED["C07"] = dict(
          "timeout/4 is gone from both tables wherever the ticks fell, and none is released early; a port-53 flow is released by the reply "
          "that answers its last query; a later datagram starts a fresh socket; operations on one flow leave every other flow's entry and "
          "socket untouched; only the client going away ends the multiplexer. Tied to the code by ~160 (1500) histories per run through "
-         "the real udp_pipe::DuplexPipe + direct forwarder over loopback sockets under a paused clock, observed after every operation.",
+         "the real udp_pipe::DuplexPipe + direct forwarder over loopback sockets under a paused clock, observed after every operation. The receive buffers of both multiplexers are read from the source by the translator; every IPv4 datagram fits them (direct_reply_received_whole, socks_relay_datagram_received_whole).",
     note="Trusted: Lean kernel, harness/door, Linux loopback UDP and tokio timer semantics as listed in the evidence. Operations are atomic "
          "in the model; a tick landing inside one datagram's processing is a runtime interleaving the suite cannot exhibit (partial there). "
          "The SOCKS5 multiplexer has its own model (TT/Model/UdpSocks.lean: one association per client source, released with its last "
@@ -213,7 +213,7 @@ CLAIMED["C17"] = dict(
          "client, every end-to-end header does, in order; the forwarded request keeps method, path, headers minus proxy-*, Host = URI "
          "authority, and a Content-Length body is forwarded up to exactly that length. Tied to http_forwarded_stream.rs by ~2.5k (20k) "
          "exchanges per run through the real into_forwarded source/sink under the real DuplexPipe, mutated streams for panics, and live "
-         "non-CONNECT requests through real HTTP/1.1 and HTTP/2 sessions to a loopback origin.",
+         "non-CONNECT requests through real HTTP/1.1 and HTTP/2 sessions to a loopback origin. The flow-control credit of the request body under every acceptance schedule of the origin is exactly what was accepted beyond the serialised head (request_credit_exact).",
     note="Trusted: Lean kernel, harness/door, httparse as re-written for the generated grammar, http crate URI parsing, the real codecs "
          "behind the responder only in the live runs (HTTP/1.1, HTTP/2 in process; HTTP/3 through the real QUIC listener, suite c17h3). "
          "One open known finding (HTTP/2-3 request body without "
@@ -250,7 +250,7 @@ CLAIMED["C20"] = dict(
          "(all_log_sites_clean over the regenerated table; an unscrubbed site breaks the theorem and is named). Searched: ~435 trace-"
          "level scenarios over every channel and error path with 13 canaries planted in credentials, cookies, SNI labels and the "
          "configured password. This is the property where proof covers least: absence of leaks in the whole program rests on the "
-         "extractor's taint rules and the canary search.",
+         "extractor's taint rules and the canary search. The filter of the endpoint's loggers is modelled (the TLS library's trace records, which dump the ClientHello, are never written: tls_library_traces_never_logged) and compared with what both real loggers write.",
     note="Trusted: Lean kernel, tools/extract.py taint rules and per-file exceptions, harness/door, http crate Debug output. The repair of "
          "the leaks found (raw requests in six modules, credentials in TcpConnectionMeta and ConnectionMeta debug output) is in /repo.",
     technique="Lean 4 non-interference theorems for the scrubbers + kernel-decided generated log-site table + dynamic canary search",
